@@ -18,7 +18,7 @@ PROGRAMS = ("create-centres", "create-ids", "create-hdf", "create-parquet", "cre
             # the same with progress=True: the progress indicator wraps the result generators on the root rank
             "create-ids+p", "trees+p", "hist+p", "cross+p",
             # faulty requests that a single process refuses with an error: under MPI the error must surface as well
-            "refuse-badprobe", "refuse-empty-centre")
+            "refuse-badprobe", "refuse-empty-centre", "refuse-exists")
 NEEDS_FIXTURE = ("load", "trees", "hist", "auto", "cross", "trees+p", "hist+p", "cross+p")
 
 
@@ -154,6 +154,13 @@ def program(name, d, max_workers=None):
 
                 gen = BoxRandoms(9.0, 17.0, -0.5, 1.0, seed=5)
                 Catalog.from_random(out + "/rand", gen, 7, patch_num=2, probe_size=50, chunksize=3, **mw)
+            elif name == "refuse-exists":
+                # the target exists already and overwriting was not requested
+                if parallel.on_root():
+                    os.makedirs(out + "/R/precious")
+                parallel.COMM.Barrier()
+                Catalog.from_dataframe(out + "/R", R, ra_name="ra", dec_name="dec", patch_centers=centres(), chunksize=3,
+                                       overwrite=False, **mw)
             else:
                 from yaw import AngularCoordinates
 
